@@ -11,7 +11,7 @@
 From Coq Require Import Lia.
 From AV Require Import Base.Bytes Base.Outcome Hash.HashModel Spec.SpecOps Tree.Heap Tree.Ops Tree.Script Tree.Script2 Tree.Compat Tree.Serialize
   Tree.IndexProofsW Tree.Index Tree.IndexProofsBase Tree.IndexProofsFrame Tree.IndexProofs Tree.Refs Tree.RefsProofs Tree.RefsAll
-  Tree.IndexProofsNodeInv Tree.IndexProofsAll.
+  Tree.IndexProofsNodeInv Tree.IndexProofsAll Tree.RefsProofsSetName Tree.Sort Tree.SortProofsOrder Tree.SortProofsHeap Tree.SortProofsNames Tree.IndexProofsSort.
 Open Scope string_scope.
 Open Scope list_scope.
 Open Scope N_scope.
@@ -114,6 +114,42 @@ Proof.
   - apply wmap2_inv in H as (r0 & H). pose proof (psv_f_serialize f _ _ _ H) as HS.
     split; [eapply (Inv04_sv T check_fn); eauto|]. split; [eapply Inv05_sv; eauto|eapply xp_f_serialize; eauto].
   - apply wmap2_inv in H as (r0 & H). apply ro_e_ser in H. subst. auto.
+Qed.
+
+(* ---------- sort: agent-c14's `kept` + the transfer of Tree/IndexProofsSort.v *)
+Hypothesis MO : MaskOk T.
+
+Lemma RX_kept w w' : kept T w w' -> RX w -> RX w'.
+Proof.
+  intros ((_ & _ & _ & nodes) & _) F j n' Hj. specialize (nodes j). rewrite Hj in nodes.
+  destruct (w_nodes w j) as [n|] eqn:Hn; [|destruct nodes]. destruct (F _ _ Hn) as (A & B).
+  destruct nodes as ((Ep & _ & Ety & _) & Hc). split.
+  - rewrite Ety. destruct Hc as [->|(_ & P)]; [exact A|]. intros d Hd.
+    eapply Permutation.Permutation_in in Hd; [|apply Permutation.Permutation_sym; exact P]. apply in_map_iff in Hd as (x & E & _). discriminate E.
+  - rewrite Ep, Ety. exact B.
+Qed.
+
+Lemma e_sort_kept h w r w' : NameFirst T w ->
+  e_sort T tab_el tab_at tab_en name_index name_definition_ref h w = Val (r, w') -> kept T w w'.
+Proof.
+  intros NF H. unfold e_sort, e_sort_with, wbind, wget in H.
+  exact (proj2 (sort_kept T tab_el tab_at tab_en name_index name_definition_ref isort_poly StableSort_isort MO _ _ _ _ _ NF H)).
+Qed.
+Lemma m_sort_kept m w r w' : NameFirst T w ->
+  m_sort T tab_el tab_at tab_en name_index name_definition_ref m w = Val (r, w') -> kept T w w'.
+Proof.
+  intros NF H. unfold m_sort, m_sort_with in H. apply wbind_inv in H as [(x & w1 & E & H)|(e & E & _)].
+  - unfold get_model in E. destruct (nth_opt (w_models w) (N.to_nat m)); [|discriminate E]. injection E as _ <-.
+    eapply (e_sort_kept (m_root x)); eauto.
+  - unfold get_model in E. destruct (nth_opt (w_models w) (N.to_nat m)); discriminate E.
+Qed.
+
+Theorem C45_sort_step w w' :
+  TreeFacts w -> Inv04 w -> Inv05 T w -> RX w -> NameFirst T w -> kept T w w' ->
+  TreeFacts w' /\ Inv04 w' /\ Inv05 T w' /\ RX w'.
+Proof.
+  intros HF H4 H5 HX NF HK. destruct (sort_j5 T check_fn w w' (conj HF (conj H4 H5)) HK NF) as (A & B & C).
+  split; [exact A|]. split; [exact B|]. split; [exact C|]. eapply RX_kept; eauto.
 Qed.
 
 Fixpoint run_hist2 (l : list op2) (w : world) : res world :=
